@@ -26,7 +26,7 @@ impl Prop for C10 {
         {
             let mut ns: Vec<i64> = match tier {
                 Tier::Quick => (0..=130).chain([364, 365, 366, 500, 729, 730, 999, 1000].into_iter()).collect(),
-                Tier::Thorough => (0..=1000).collect(),
+                Tier::Thorough => (0..=10_000).collect(),
             };
             ns.extend([10_000, 100_000, 1_000_000]);
             let mut spell: Vec<(String, Unit, String)> = Vec::new();
@@ -41,7 +41,7 @@ impl Prop for C10 {
             f.push(Family::new(
                 "n-unit",
                 Mode::Full,
-                &format!("'N word' for N in {} counts (0..={} and 10^4, 10^5, 10^6) x all {} unit spellings of all configured languages: seconds value and printed greedy decomposition", ns.len(), tier.pick(130, 1000), nspell),
+                &format!("'N word' for N in {} counts (0..={} and 10^4, 10^5, 10^6) x all {} unit spellings of all configured languages: seconds value and printed greedy decomposition", ns.len(), tier.pick(130, 10_000), nspell),
                 move |ch| {
                     let (l, u, w) = ch.pick(&spell).clone();
                     let n = *ch.pick(&ns);
@@ -52,12 +52,12 @@ impl Prop for C10 {
         // printing: every magnitude ---------------------------------------------------
         {
             let mut mags: Vec<i64> = Vec::new();
-            let top = tier.pick(4_000i64, 200_000i64);
+            let top = tier.pick(4_000i64, 3_000_000i64);
             mags.extend(0..=top);
             for u in UNITS {
-                for k in 1..=tier.pick(40i64, 800i64) {
+                for k in 1..=tier.pick(40i64, 3000i64) {
                     let m = k * u.len();
-                    if m <= 3 * dur::YEAR {
+                    if m <= tier.pick(3, 120) * dur::YEAR {
                         mags.push(m - 1);
                         mags.push(m);
                         mags.push(m + 1);
@@ -69,7 +69,7 @@ impl Prop for C10 {
             f.push(Family::new(
                 "print",
                 Mode::Full,
-                &format!("'S seconds' for every S in 0..={} and S = k*len(unit)-1, k*len(unit), k*len(unit)+1 for every unit and k up to {} (below 3 years): printed decomposition is greedy, sums to S, singular/plural correct ({} magnitudes)", top, tier.pick(40, 800), mags.len()),
+                &format!("'S seconds' for every S in 0..={} and S = k*len(unit)-1, k*len(unit), k*len(unit)+1 for every unit and k up to {} (below 3 / 120 years): printed decomposition is greedy, sums to S, singular/plural correct ({} magnitudes)", top, tier.pick(40, 3000), mags.len()),
                 move |ch| {
                     let s = *ch.pick(&mags);
                     Some(case(format!("{} seconds", s), s, "en", "print"))
@@ -78,11 +78,11 @@ impl Prop for C10 {
         }
         // lists ------------------------------------------------------------------------
         {
-            let counts: Vec<i64> = vec![1, 2, 59, 60];
+            let counts: Vec<i64> = tier.pick(vec![1, 2, 59, 60], vec![1, 2, 11, 12, 13, 29, 30, 59, 60, 61, 365]);
             f.push(Family::new(
                 "lists-2-3",
                 Mode::Full,
-                "lists of 2..=3 parts over all 7 units (English canonical plural words, count-correct singular) x N in [1, 2, 59, 60], side by side: the value is the sum",
+                "lists of 2..=3 parts over all 7 units (English canonical plural words, count-correct singular) x N in [1, 2, 59, 60] (thorough: 11 counts incl. 11, 12, 13, 29, 30, 61, 365), side by side: the value is the sum",
                 move |ch| {
                     let n = 2 + ch.choose(2);
                     let mut text = String::new();
